@@ -254,6 +254,10 @@ func checkC07(c *Ctx) {
 	r.Rule("C07.H6", "grammar IRI characters are accepted by the IRI expander", 2)
 	r.Rule("C07.H7", "constraint templates declare no fixed-name local at rule-body scope (two constraints of one kind share a body)", 8)
 	c07FixedLocals(c)
+	r.Rule("C07.H9", "the path aggregations emit a rule that parses for 1, 2 and 3 alternatives (separators, brackets, clause joints)", 4)
+	c07AggregationsParse(c)
+	r.Rule("C07.H10", "the variable generator hands out a name for every request: alphabet by index within bounds, then the numbered fallback", 1)
+	c07VariableNames(c)
 
 	te := newTaintEngine(p)
 	te.Run()
@@ -1391,5 +1395,198 @@ func c07FixedLocals(c *Ctx) {
 			sort.Strings(bad)
 			r.Check(len(bad) == 0, "C07.H7", key, p.Pos(fd.Pos()), fmt.Sprintf("%d templates: every local declared at rule-body scope has a generated name", texts), "a template of this constraint generator declares a fixed-name local at rule-body scope: "+strings.Join(bad, "; ")+"; two constraints of this kind in one rule body (or, if/then, not over two constraints, one nested) make OPA reject the module: var assigned above")
 		}
+	}
+}
+
+// c07AggregationsParse (H9): the functions that turn a list of alternative traversals into one Rego rule are evaluated
+// symbolically (E-sym) on concrete lists of 1, 2, 3 (thorough: 4) alternatives, each with one line of code; the lines the
+// function returns are assembled and handed to OPA's parser. Nothing is executed: the function's syntax is interpreted
+// over a list whose shape is known.
+func c07AggregationsParse(c *Ctx) {
+	r, p := c.R, c.P
+	gen := p.Pkg("internal/generator")
+	if gen == nil {
+		return
+	}
+	info := gen.TypesInfo
+	maxK := 3
+	if c.Thorough() {
+		maxK = 4
+	}
+	holeRe := regexp.MustCompile(`‹[^›]*›`)
+	found := 0
+	for _, f := range gen.Syntax {
+		for _, d := range f.Decls {
+			fd, ok := d.(*ast.FuncDecl)
+			if !ok || fd.Body == nil || fd.Recv != nil || fd.Type.Params == nil || len(fd.Type.Params.List) != 1 || len(fd.Type.Params.List[0].Names) != 1 {
+				continue
+			}
+			prm := info.Defs[fd.Type.Params.List[0].Names[0]]
+			sl, ok := prm.Type().Underlying().(*types.Slice)
+			if !ok {
+				continue
+			}
+			est, ok := sl.Elem().Underlying().(*types.Struct)
+			if !ok {
+				continue
+			}
+			hasRego := false
+			for i := 0; i < est.NumFields(); i++ {
+				if est.Field(i).Name() == "rego" {
+					hasRego = true
+				}
+			}
+			if !hasRego || fd.Type.Results == nil || len(fd.Type.Results.List) != 1 {
+				continue
+			}
+			found++
+			key := relOf(gen) + "." + fd.Name.Name
+			for k := 1; k <= maxK; k++ {
+				list := &Sym{K: symList, Type: prm.Type()}
+				for j := 0; j < k; j++ {
+					el := &Sym{K: symStruct, Fields: map[string]*Sym{}, Type: sl.Elem()}
+					for i := 0; i < est.NumFields(); i++ {
+						fn := est.Field(i).Name()
+						if fn == "rego" {
+							el.Fields[fn] = &Sym{K: symList, Parts: []*Sym{symStr(fmt.Sprintf("nodes = data.alt%d[_]", j))}}
+						} else {
+							el.Fields[fn] = &Sym{K: symUnknown, Name: fn}
+						}
+						el.Order = append(el.Order, fn)
+					}
+					list.Parts = append(list.Parts, el)
+				}
+				var rets []*Sym
+				proto := &symWalker{Inline: samePkgInline(gen)}
+				proto.OnReturn = func(w *symWalker, ret *ast.ReturnStmt, results []*Sym) {
+					if w.depth == 0 && len(results) == 1 {
+						rets = append(rets, results[0])
+					}
+				}
+				p.SymWalk(gen, fd, proto, map[types.Object]*Sym{prm: list})
+				kk := fmt.Sprintf("%s#%d-alternatives", key, k)
+				if len(rets) != 1 || rets[0].K != symStruct {
+					r.Unknown("C07.H9", kk, p.Pos(fd.Pos()), fmt.Sprintf("the aggregation could not be evaluated on a list of %d alternatives (%d results)", k, len(rets)))
+					continue
+				}
+				lines, ok := rets[0].Fields["rego"]
+				if !ok || lines.K != symList {
+					r.Unknown("C07.H9", kk, p.Pos(fd.Pos()), "the emitted lines are not a list: "+rets[0].String())
+					continue
+				}
+				var text []string
+				unknown := false
+				for _, l := range lines.Parts {
+					if l.HasUnknown() {
+						unknown = true
+					}
+					text = append(text, holeRe.ReplaceAllString(l.Template(), "gen_rule_1"))
+				}
+				if unknown {
+					r.Unknown("C07.H9", kk, p.Pos(fd.Pos()), "a line emitted by the aggregation could not be evaluated")
+					continue
+				}
+				module := "package t\n\n" + strings.Join(text, "\n") + "\n"
+				_, err := rast.ParseModule("t.rego", module)
+				msg := ""
+				if err != nil {
+					msg = strings.SplitN(err.Error(), "\n", 2)[0]
+				}
+				r.Check(err == nil, "C07.H9", kk, p.Pos(fd.Pos()), fmt.Sprintf("the rule emitted for %d alternative(s) parses (%d lines)", k, len(text)), fmt.Sprintf("the rule emitted for %d alternative(s) does not parse: %s; text: %s", k, msg, shortFormat(strings.Join(text, " ⏎ "))))
+			}
+		}
+	}
+	if found == 0 {
+		r.Unknown("C07.H9", "aggregations", "", "no function from a list of traversal results to a rule was found")
+	}
+}
+
+// c07VariableNames (H10): the generator of quantified-variable names indexes its alphabet only below its length and
+// otherwise builds the numbered fallback name; decided on the value its name-producing method returns (E-sym).
+func c07VariableNames(c *Ctx) {
+	r, p := c.R, c.P
+	pk := p.Pkg("internal/parser/profile")
+	if pk == nil {
+		return
+	}
+	found := 0
+	for _, f := range pk.Syntax {
+		for _, d := range f.Decls {
+			fd, ok := d.(*ast.FuncDecl)
+			if !ok || fd.Body == nil || fd.Recv == nil || fd.Type.Results == nil || len(fd.Type.Results.List) != 1 {
+				continue
+			}
+			// a method that indexes a string slice field of its receiver
+			indexes := false
+			ast.Inspect(fd.Body, func(n ast.Node) bool {
+				if ix, ok := n.(*ast.IndexExpr); ok {
+					if tv, ok := pk.TypesInfo.Types[ix.X]; ok && tv.Type.String() == "[]string" {
+						_, baseSel := ast.Unparen(ix.X).(*ast.SelectorExpr)
+						_, idxSel := ast.Unparen(ix.Index).(*ast.SelectorExpr)
+						if baseSel && idxSel {
+							indexes = true // <recv>.alphabet[<recv>.counter]
+						}
+					}
+				}
+				return true
+			})
+			if !indexes {
+				continue
+			}
+			found++
+			key := relOf(pk) + "." + recvName(fd) + "." + fd.Name.Name
+			var rets []*Sym
+			proto := &symWalker{}
+			proto.OnReturn = func(w *symWalker, ret *ast.ReturnStmt, results []*Sym) {
+				if w.depth == 0 && len(results) == 1 {
+					rets = append(rets, results[0])
+				}
+			}
+			p.SymWalk(pk, fd, proto, nil)
+			if len(rets) != 1 {
+				r.Unknown("C07.H10", key, p.Pos(fd.Pos()), fmt.Sprintf("%d return statements", len(rets)))
+				continue
+			}
+			v := rets[0]
+			if v.K == symStruct {
+				if nm, ok := v.FieldDeep("Name"); ok {
+					v = nm
+				}
+			}
+			okv, why := false, "the name returned is "+v.String()
+			if v.K == symChoice && len(v.Parts) == 2 {
+				// one alternative indexes the alphabet under `i < len(alphabet)`, the other is the non-empty fallback text
+				var idxAlt, fbAlt *Sym
+				var idxCond string
+				for i, part := range v.Parts {
+					if part.K == symIndex {
+						idxAlt, idxCond = part, v.Alts[i]
+					} else {
+						fbAlt = part
+					}
+				}
+				if idxAlt != nil && fbAlt != nil {
+					wantCond := "(" + idxAlt.Y.String() + " < len(" + idxAlt.X.String() + "))"
+					fbOK := false
+					if fbAlt.K == symConcat && len(fbAlt.Parts) >= 2 {
+						if c0, ok := fbAlt.Parts[0].ConstString(); ok && c0 != "" {
+							fbOK = true
+						}
+					}
+					switch {
+					case idxCond != wantCond:
+						why = "the alphabet is indexed under the condition " + idxCond + ", not " + wantCond + ": at the boundary the index is out of range (the request fails) or a letter is skipped"
+					case !fbOK:
+						why = "past the alphabet the generator returns " + fbAlt.String() + ", not a non-empty prefix followed by the counter: variables beyond the alphabet get an empty or constant name"
+					default:
+						okv = true
+					}
+				}
+			}
+			r.Check(okv, "C07.H10", key, p.Pos(fd.Pos()), "alphabet[i] while i < len(alphabet), then <prefix><counter>", why)
+		}
+	}
+	if found == 0 {
+		r.Unknown("C07.H10", "variable-generator", "", "no method that indexes an alphabet of names was found in the profile package")
 	}
 }
